@@ -166,6 +166,8 @@ def call_function(ex, qualname, args, kwargs, st, n, closure_node=None, self_obj
 
 
 def call_external(ex, name, args, kwargs, st, n):
+    if name == 're.compile' and args and args[0].t is not None and args[0].t.op == 'const':
+        return SV(PT('regex'), py=args[0].t.val)        # a literal pattern: its assumed contract is keyed by the pattern text
     c = ex.reg.contracts.get(name)
     if c is None:
         raise OutOfSubset('external function %s has no (trusted) contract, line %d' % (name, n.lineno))
